@@ -22,7 +22,7 @@ SLASH = 0x2F
 
 
 # ------------------------------------------------------------------ trees (python side: name -> node)
-# node = ("d", {name: node}) | ("f", bytes) | ("l", bytes) | ("p",)
+# node = ("d", {name: node}) | ("f", bytes) | ("l", bytes) | ("p",) fifo | ("s",) unix socket | ("c",) char device | ("b",) block device
 
 def parse_dump(s):
     root = {}
@@ -40,8 +40,8 @@ def parse_dump(s):
         elif k in "FL":
             n, c = body.split(":")
             stack[-1][C.unhex(n)] = ("f" if k == "F" else "l", C.unhex(c))
-        elif k == "P":
-            stack[-1][C.unhex(body)] = ("p",)
+        elif k in "PSCB":
+            stack[-1][C.unhex(body)] = (k.lower(),)
         else:
             stack[-1][C.unhex(body) if k == "X" else t.encode()] = ("x",)
     return root
@@ -59,8 +59,8 @@ def dump_tokens(d):
             out.append("F%s:%s" % (H(n), H(v[1])))
         elif v[0] == "l":
             out.append("L%s:%s" % (H(n), H(v[1])))
-        elif v[0] == "p":
-            out.append("P" + H(n))
+        elif v[0] in "pscb":
+            out.append(v[0].upper() + H(n))
     return out
 
 
@@ -122,7 +122,7 @@ def spec_apply(root, op, loc, arg=None):
     return t
 
 
-DT = {"d": 4, "f": 8, "l": 10, "p": 1}
+DT = {"d": 4, "f": 8, "l": 10, "p": 1, "s": 12, "c": 2, "b": 6}
 
 
 # ------------------------------------------------------------------ scripted getdents64 answers (readdirs)
@@ -245,8 +245,12 @@ class Gen:
                 nm = self.name(long_ok)
             if not self.valid(nm) or nm in d:
                 continue
-            k = r.below(10)
-            if k < 4:
+            k = r.below(12)
+            if k == 10:
+                d[nm] = ("s",)
+            elif k == 11:
+                d[nm] = (r.choice("cb"),)
+            elif k < 4:
                 d[nm] = ("f", r.bytes(r.choice([0, 1, 3, 10, 40])))
             elif k < 7 and depth > 0:
                 d[nm] = ("d", self.tree(depth - 1, fan, 0, long_ok) if not wide or r.chance(1, 20) else {})
@@ -263,6 +267,10 @@ class Gen:
         # fixed link targets at the top (so links inside sub-trees point at something observable outside them)
         t[b"tgt_file"] = ("f", b"target-content")
         t[b"tgt_dir"] = ("d", {b"inner": ("d", {b"deep": ("f", b"x")}), b"f": ("f", b"keep")})
+        # node kinds beyond file/dir/symlink/fifo, at the top and inside the tree that gets removed
+        t[b"tgt_sock"] = ("s",)
+        t[b"tgt_blk"] = ("b",)
+        t[b"tgt_chr"] = ("c",)
         if wide:
             t[b"wide"] = ("d", self.tree(1, 0, wide))
         # sub-trees whose links point up and out
@@ -270,7 +278,8 @@ class Gen:
         sub[b"up_file"] = ("l", b"../tgt_file")
         sub[b"up_dir"] = ("l", b"../tgt_dir")
         sub[b"dangling"] = ("l", b"../missing")
-        sub[b"dd"] = ("d", {b"up2": ("l", b"../../tgt_dir"), b"ff": ("p",), b"g": ("f", b"g")})
+        sub[b"dd"] = ("d", {b"up2": ("l", b"../../tgt_dir"), b"ff": ("p",), b"g": ("f", b"g"), b"sk": ("s",), b"bd": ("b",),
+                            b"cd": ("c",), b"up_sock": ("l", b"../../tgt_sock")})
         t[b"victim"] = ("d", sub)
         return t
 
@@ -330,9 +339,22 @@ class Gen:
         out = []
         cur = clone(tree)
         for _ in range(n):
-            k = r.below(100)
+            k = r.below(110)
             line = None
-            if k < 22:      # write
+            if k >= 100:    # metadata / exists: any kind of node, missing paths, below a non-directory
+                kind = r.below(10)
+                x = self.pick(cur, lambda l, v: v[0] != "l" and (kind < 5 or v[0] in "scbp") and self.clean(cur, l))
+                loc = x[0] if x else (b"tgt_sock",)
+                if kind == 8:
+                    loc = loc + (self.name(False),)
+                elif kind == 9:
+                    loc = (self.name(False),)
+                if not all(self.valid(c) for c in loc) or not self.clean(cur, loc) or (lookup(cur, loc) or ("f",))[0] == "l":
+                    continue
+                p, sh = self.shape(loc, r.chance(1, 4))
+                n = lookup(cur, loc)
+                line = ("meta %s" % H(p), "meta", loc, None, sh, "node:" + (n[0] if n else "-"))
+            elif k < 22:      # write
                 kind = r.below(10)
                 if kind < 4:
                     x = self.pick(cur, lambda l, v: v[0] == "f" and self.clean(cur, l))
@@ -341,11 +363,12 @@ class Gen:
                     x = self.pick(cur, lambda l, v: v[0] == "d" and self.clean(cur, l + (b"x",)))
                     loc = (x[0] if x else ()) + (self.name(),)
                 elif kind < 9:
-                    x = self.pick(cur, lambda l, v: v[0] == "d" and self.clean(cur, l))   # write onto a directory
+                    # write onto a directory / onto a socket (cannot be opened: ENXIO)
+                    x = self.pick(cur, lambda l, v: v[0] in ("ds" if r.chance(1, 2) else "d") and self.clean(cur, l))
                     loc = x[0] if x else (b"tgt_dir",)
                 else:
                     loc = (self.name(False), self.name(False))           # missing parent (mostly)
-                if not self.valid(loc[-1]) or not self.clean(cur, loc) or (lookup(cur, loc) or ("f",))[0] in "lp":
+                if not self.valid(loc[-1]) or not self.clean(cur, loc) or (lookup(cur, loc) or ("f",))[0] in "lpcb":
                     continue
                 data = r.bytes(r.choice([0, 1, 5, 5, 64, 700]))
                 p, sh = self.shape(loc, r.chance(1, 12))
@@ -354,9 +377,9 @@ class Gen:
                     sc = " s" + ",".join(str(r.choice([1, 2, 3, 100, 0])) for _ in range(r.range(1, 4)))
                 line = ("write %s %s%s" % (H(p), H(data), sc), "write", loc, data, sh)
             elif k < 30:    # read
-                x = self.pick(cur, lambda l, v: v[0] in "fd" and self.clean(cur, l))
+                x = self.pick(cur, lambda l, v: v[0] in "fds" and self.clean(cur, l))
                 loc = x[0] if x and r.chance(9, 10) else (self.name(False),)
-                if not self.clean(cur, loc) or (lookup(cur, loc) or ("f",))[0] in "lp":
+                if not self.clean(cur, loc) or (lookup(cur, loc) or ("f",))[0] in "lpcb":
                     continue
                 p, sh = self.shape(loc, False)
                 line = ("read %s" % H(p), "read", loc, None, sh)
@@ -365,6 +388,13 @@ class Gen:
                 if not s:
                     continue
                 kind = r.below(10)
+                if r.chance(1, 12):         # a socket as the source: the open fails, nothing may change
+                    sk = self.pick(cur, lambda l, v: v[0] == "s" and self.clean(cur, l))
+                    if sk:
+                        p1, _ = self.shape(sk[0], False)
+                        p2, sh2 = self.shape((b"cp_from_sock",), False)
+                        out.append(("copy %s %s" % (H(p1), H(p2)), "copy", (b"cp_from_sock",), sk[0], sh2, "absent"))
+                        continue
                 if kind < 5:
                     d = self.pick(cur, lambda l, v: v[0] == "f" and self.clean(cur, l) and l != s[0])
                     dloc = d[0] if d else (b"cp_new",)
@@ -372,9 +402,9 @@ class Gen:
                     d = self.pick(cur, lambda l, v: v[0] == "d" and self.clean(cur, l + (b"x",)))
                     dloc = (d[0] if d else ()) + (self.name(),)
                 else:
-                    d = self.pick(cur, lambda l, v: v[0] == "d" and self.clean(cur, l))
+                    d = self.pick(cur, lambda l, v: v[0] in "ds" and self.clean(cur, l))    # onto a directory / a socket
                     dloc = d[0] if d else (b"tgt_dir",)
-                if dloc == s[0] or not self.valid(dloc[-1]) or (lookup(cur, dloc) or ("f",))[0] in "lp":
+                if dloc == s[0] or not self.valid(dloc[-1]) or (lookup(cur, dloc) or ("f",))[0] in "lpcb":
                     continue
                 ps, sh1 = self.shape(s[0], False)
                 pd, sh2 = self.shape(dloc, False)
@@ -388,14 +418,18 @@ class Gen:
                         sc = " s" + ",".join(str(r.choice([1, 2, 3, 100, 0])) for _ in range(r.range(1, 4)))
                 line = ("copy %s %s%s" % (H(ps), H(pd), sc), "copy", dloc, s[0], sh2)
                 prior = lookup(cur, dloc)
-                line = line + (("absent" if prior is None else ("dir" if prior[0] == "d" else
+                line = line + (("absent" if prior is None else ("dir" if prior[0] == "d" else "socket" if prior[0] == "s" else
                                ("longer" if len(prior[1]) > len(s[1][1]) else ("shorter" if len(prior[1]) < len(s[1][1]) else "equal")))),)
             elif k < 78:    # mkdirall
                 kind = r.below(10)
                 base = self.pick(cur, lambda l, v: v[0] == "d" and self.clean(cur, l + (b"x",)))
                 bl = base[0] if base and kind < 8 else ()
                 if kind == 8:
-                    f = self.pick(cur, lambda l, v: v[0] == "f" and self.clean(cur, l))   # file as directory
+                    # something that is not a directory in the way (as the last or as an inner component): a regular file, a
+                    # socket, a fifo, a character or block device
+                    want = r.choice(["f", "s", "s", "b", "b", "c", "p"])
+                    f = self.pick(cur, lambda l, v: v[0] == want and self.clean(cur, l)) or \
+                        self.pick(cur, lambda l, v: v[0] in "fscbp" and self.clean(cur, l))
                     bl = f[0] if f else ()
                 newc = tuple(self.name(r.chance(1, 6)) for _ in range(r.choice([0, 1, 1, 2, 3, 6])))
                 if kind == 9:
@@ -406,13 +440,21 @@ class Gen:
                 if (lookup(cur, loc) or ("d",))[0] == "l":
                     continue
                 p, sh = self.shape(loc, True)
-                line = ("mkdirall %s" % H(p), "mkdirall", loc, None, sh)
+                obstacle = "none"
+                for i in range(1, len(loc) + 1):
+                    n = lookup(cur, loc[:i])
+                    if n is None:
+                        break
+                    if n[0] != "d":
+                        obstacle = n[0] + ("-last" if i == len(loc) else "-inner")
+                        break
+                line = ("mkdirall %s" % H(p), "mkdirall", loc, None, sh, "obstacle:" + obstacle)
             elif k < 90:    # rmall
                 kind = r.below(10)
                 if kind < 8:
                     x = self.pick(cur, lambda l, v: v[0] == "d" and self.clean(cur, l))
                 elif kind < 9:
-                    x = self.pick(cur, lambda l, v: v[0] == "f" and self.clean(cur, l))
+                    x = self.pick(cur, lambda l, v: v[0] in "fs" and self.clean(cur, l))    # a regular file / a socket
                 else:
                     x = ((self.name(False),), None)
                 if not x or not self.clean(cur, x[0]):
@@ -544,6 +586,20 @@ class Judge:
                 return "%s changed the tree" % op
             if op == "write" and res != "ok read=" + H(arg):
                 return "write: read returns something else than the bytes written"
+            if op == "meta" and meta[0].split()[1] == "-":
+                # known finding: rusl::unistd::stat always passes AT_EMPTY_PATH, the empty path names the working directory
+                return "metadata: Ok for the empty path where std::fs answers ENOENT, it describes the working directory (%s)" % res[3:]
+            if op == "meta":
+                n = lookup(pre, loc)
+                if n is None:
+                    return "metadata: Ok for a path at which nothing exists"
+                if shape and shape[2] and n[0] != "d":
+                    return "metadata: Ok for a non-directory named with a trailing separator"
+                want = "ok dfl=%d%d0 len=%s ex=1" % (n[0] == "d", n[0] == "f", len(n[1]) if n[0] == "f" else "-")
+                if res != want:
+                    return "metadata: is_dir/is_file/is_symlink/len/exists (%s) do not describe the %s at the path (%s)" % (
+                        res[3:], {"d": "directory", "f": "regular file", "p": "fifo", "s": "socket", "c": "character device",
+                                  "b": "block device"}.get(n[0], n[0]), want[3:])
             if op == "read":
                 n = lookup(pre, loc)
                 if n is None or n[0] != "f" or res != "ok " + H(n[1]):
@@ -565,6 +621,8 @@ class Judge:
                 rel = f.get("rel", "")
                 if any((c == "1") != (y[1] in (b".", b"..")) for c, y in zip(rel, ys)):
                     return "readdir: is_relative_reference wrong"
+            if op == "meta" and sc == "ok" and res != std and not self.diverged:
+                return "metadata: predicates differ from std::fs (%s)" % std[3:]
             if self.diverged:
                 return None
             if sc != "ok" and std.startswith("err 36") and len(C.unhex(meta[0].split()[1])) >= 3800:
@@ -659,8 +717,11 @@ def malformed_session(g):
     t[b"lf"] = ("l", b"tgt_file")
     t[b"lx"] = ("l", b"missing")
     t[b"lup"] = ("l", b"victim/dd/..")
+    t[b"lsk"] = ("l", b"tgt_sock")          # symlinks to a socket / a block device / a character device: stat follows them
+    t[b"lbd"] = ("l", b"tgt_blk")
+    t[b"lcd"] = ("l", b"tgt_chr")
     lines = ["tree " + " ".join(dump_tokens(t))]
-    comps_pool = [b"ld", b"lf", b"lx", b"lup", b"..", b".", b"tgt_dir", b"tgt_file", b"victim", b"dd", b"inner", b"missing",
+    comps_pool = [b"lsk", b"lbd", b"lcd", b"tgt_sock", b"tgt_blk", b"sk", b"up_sock", b"ld", b"lf", b"lx", b"lup", b"..", b".", b"tgt_dir", b"tgt_file", b"victim", b"dd", b"inner", b"missing",
                   b"up_dir", b"up_file", b"dangling", b"f", b"n1", b"n2", b"", b"up2"]
     for _ in range(r.range(25, 50)):
         cs = [r.choice(comps_pool) for _ in range(r.range(1, 5))]
@@ -669,7 +730,7 @@ def malformed_session(g):
             p = g.sb + b"/" + p
         if r.chance(1, 5):
             p += b"/"
-        op = r.choice(["write", "read", "copy", "mkdirall", "mkdirall", "rmall", "readdir"])
+        op = r.choice(["write", "read", "copy", "mkdirall", "mkdirall", "mkdirall", "rmall", "readdir", "meta", "meta"])
         if op == "mkdirall" and cs[-1] in (b".", b""):
             # std::fs::create_dir_all("x/new/.") fails with ENOENT (it never creates `new`), tiny-std creates it: not compared
             cs[-1] = b"n1"
@@ -714,10 +775,14 @@ def run_malformed(ctx, exe, sandbox, n_sessions):
         why = None
         if res.startswith("panic"):
             why = "panicked"
+        elif op == "meta" and c.split()[1] == "-":
+            ctx.hist("known_meta_empty_path_is_cwd", okclass(res) + "/" + okclass(std))      # known finding, reported by the main stream
         elif okclass(res) == "ok" and okclass(std) != "ok":
             why = "%s: Ok where std::fs fails" % op
         elif okclass(res) == "ok" and twin != "same":
             why = "%s: resulting tree differs from std::fs on the twin" % op
+        elif op == "meta" and okclass(res) == "ok" and res != std:
+            why = "meta: predicates differ from std::fs (%s / %s)" % (res[3:], std[3:])
         elif okclass(res) == "err" and okclass(std) == "ok":
             st["malformed"]["stricter_than_std"] += 1
             ctx.hist("malformed_stricter", op)
@@ -737,7 +802,10 @@ def run_malformed(ctx, exe, sandbox, n_sessions):
 def directed_lines(g):
     """the shapes of DESIGN §4 #14/#15 and the 512 / PATH_MAX boundaries, always present"""
     sb = g.sb
-    t = {b"existing": ("d", {}), b"d": ("f", b"0123456789"), b"s": ("f", b"abc"), b"big": ("f", bytes(range(256)) * 3)}
+    t = {b"existing": ("d", {}), b"d": ("f", b"0123456789"), b"s": ("f", b"abc"), b"big": ("f", bytes(range(256)) * 3),
+         b"sk": ("s",), b"cd": ("c",), b"bd": ("b",), b"ff": ("p",),
+         b"kinds": ("d", {b"sk": ("s",), b"cd": ("c",), b"bd": ("b",), b"ff": ("p",), b"f": ("f", b"x"), b"l": ("l", b"../sk"),
+                          b"sub": ("d", {b"bd": ("b",), b"sk": ("s",)})})}
     L = [("tree " + " ".join(dump_tokens(t)), "tree", (), None, None)]
 
     def add(line, op, loc, arg=None, extra=None):
@@ -758,6 +826,28 @@ def directed_lines(g):
         p = b"existing" + b"/" * (n - 8 - 2) + b"q%d" % (n % 10)
         if len(p) == n:
             add("mkdirall %s" % H(p), "mkdirall", [b"existing", b"q%d" % (n % 10)])
+    # a node that is not a directory already at the path (socket, block / character device, fifo), as the last component with
+    # and without trailing separators and as an inner component; metadata / exists of every kind; the tree holding them removed
+    for nm in (b"sk", b"bd", b"cd", b"ff"):
+        add("mkdirall %s" % H(nm), "mkdirall", [nm], extra="obstacle:%s-last" % t[nm][0])
+        add("mkdirall %s" % H(nm + b"/"), "mkdirall", [nm], extra="obstacle:%s-last" % t[nm][0])
+        add("mkdirall %s" % H(b"kinds//" + nm + b"//"), "mkdirall", [b"kinds", nm], extra="obstacle:%s-last" % t[nm][0])
+        add("mkdirall %s" % H(nm + b"/in/ner"), "mkdirall", [nm, b"in", b"ner"], extra="obstacle:%s-inner" % t[nm][0])
+        add("mkdirall %s" % H(sb + b"//kinds/sub///" + nm + b"/x/"), "mkdirall", [b"kinds", b"sub", nm, b"x"],
+            extra="obstacle:%s-inner" % (t[b"kinds"][1][b"sub"][1].get(nm) or ("none",))[0])
+    for nm in (b"sk", b"bd", b"cd", b"ff"):
+        add("meta %s" % H(nm), "meta", [nm], extra="node:" + t[nm][0])
+    add("meta %s" % H(b"existing/"), "meta", [b"existing"], extra="node:d")
+    add("meta %s" % H(b"big"), "meta", [b"big"], extra="node:f")
+    add("meta %s" % H(b"nothing"), "meta", [b"nothing"], extra="node:-")
+    add("meta %s" % H(b"sk/x"), "meta", [b"sk", b"x"], extra="node:-")
+    add("read %s" % H(b"sk"), "read", [b"sk"])
+    add("write %s %s" % (H(b"sk"), H(b"zz")), "write", [b"sk"], b"zz")
+    add("copy %s %s" % (H(b"s"), H(b"kinds/sk")), "copy", [b"kinds", b"sk"], (b"s",), "socket")
+    add("readdir %s" % H(b"kinds"), "readdir", [b"kinds"])
+    add("readdirs %s" % H(b"kinds"), "readdirs", [b"kinds"])
+    add("rmall %s" % H(b"sk"), "rmall", [b"sk"])
+    add("rmall %s" % H(b"kinds/"), "rmall", [b"kinds"])
     # trailing separators (one / several), on fresh, existing, nested paths, on a regular file, on the sandbox root
     add("mkdirall %s" % H(b"t1/"), "mkdirall", [b"t1"])
     add("mkdirall %s" % H(b"t2///"), "mkdirall", [b"t2"])
@@ -796,22 +886,26 @@ def directed_lines(g):
         add("mkdirall %s" % H(b"w%d/x" % n + b"/" * (n - len(b"w%d/x" % n))), "mkdirall", [b"w%d" % n, b"x"])
     for n in (4095, 4097, 4096):
         add("mkdirall %s" % H(b"y%d" % n + b"/" * (n - len(b"y%d" % n))), "mkdirall", [b"y%d" % n])
+    # known finding (the judge stops judging the session after a failure, hence the very last line): the empty path
+    add("meta -", "meta", [], extra="node:empty-path")
     return L
 
 
 def run(ctx):
     thorough = ctx.tier != "quick"
-    ctx.rule = ("sessions = random trees (depth <= 5, names 1..255 bytes incl. non-UTF-8, files/dirs/symlinks/fifos, one directory with "
-                "%s entries) + op sequences write/read/copy/create_dir_all/remove_dir_all/readdir on a real sandbox, path shapes "
+    ctx.rule = ("sessions = random trees (depth <= 5, names 1..255 bytes incl. non-UTF-8, files/dirs/symlinks/fifos/unix sockets/character and block devices, one directory with "
+                "%s entries) + op sequences write/read/copy/create_dir_all/remove_dir_all/readdir/metadata+exists on a real sandbox, path shapes "
                 "relative/absolute, repeated and trailing slashes, existing prefixes, lengths 510..514 and 4093..4097, short-count scripts "
                 "for write/copy_file_range, scripted getdents64 answers (readdirs: the kernel's records of a directory re-split over the "
                 "calls in 5 modes x 6 terminators incl. errno, early 0 and an answer that does not fit); "
-                "distinct_nontrivial = distinct (op, outcome class, absolute, repeated, trailing, length bucket, prior destination state) classes"
+                "distinct_nontrivial = distinct (op, outcome class, absolute, repeated, trailing, length bucket, prior destination state / kind of the "
+                "non-directory in the way of create_dir_all (last or inner component) / kind of node asked about) classes"
                 % ("3000" if thorough else "300"))
     ctx.assumptions += [
         "Model/Fs.lean part 1 (tree + mkdirat/openat/write/copy_file_range/getdents64/unlinkat/newfstatat) is the assumed kernel contract; "
         "it is exercised against the running kernel (ext4 under /tmp) by this run's correspondence, not proved",
-        "modelled domain: no symlink is traversed or followed by an operation's path, no `.`/`..` components, no fifo is opened, copy source != destination; "
+        "modelled domain: no symlink is traversed or followed by an operation's path, no `.`/`..` components, no fifo or device node is opened (refused by the "
+        "harness; a socket may be: ENXIO), copy source != destination; "
         "outside it only the malformed stream applies (no panic; success implies std::fs success with the same tree)",
         "a directory stream is a snapshot: removing entries already returned does not disturb the entries still to come (checked by rmall on fan-out up to thousands)",
         "the kernel's getdents64 order is environment: recorded from the real run and fed to the model; how the records are split over "
@@ -918,6 +1012,8 @@ def run(ctx):
             continue
         if m[1] == "copy" and len(m) > 5:
             ctx.hist("copy_prior_destination", m[5])
+        if m[1] in ("mkdirall", "meta") and len(m) > 5:
+            ctx.hist(m[1] + "_node_kinds", m[5] + "/" + okclass(res))
         if m[1] == "readdir" and res.startswith("ok"):
             f = dict(x.split("=", 1) for x in res.split()[1:])
             ctx.hist("getdents_calls_per_readdir", min(len(f["calls"].split(",")), 50))
